@@ -60,7 +60,8 @@ var extPurePrefixes = []string{
 
 // freshResults: external callees whose (first) result is memory nobody else holds.
 var extFreshResult = []string{"crypto/hkdf.Key", "(*math/big.Int).Bytes", "fmt.Sprintf", "fmt.Errorf", "errors.New",
-	"golang.org/x/crypto/sha3.NewCShake128", "golang.org/x/crypto/chacha20.NewUnauthenticatedCipher", "crypto/sha256.New", "crypto/sha512.New384", "crypto/sha256.Sum256"}
+	"golang.org/x/crypto/sha3.NewCShake128", "golang.org/x/crypto/chacha20.NewUnauthenticatedCipher", "crypto/sha256.New", "crypto/sha512.New384", "crypto/sha256.Sum256",
+	"crypto/elliptic.MarshalCompressed", "crypto/elliptic.Marshal"} // documented to allocate their result
 
 func calleeFull(f *ssa.Function) string { return f.String() }
 
